@@ -84,6 +84,17 @@ def slice_pad_clause(model, rep, funcs):
             need = dom.decide(BoolOr((BoolC(p0, "!="), BoolC(p1, "!="))), pcs, extra=pre)
             flag = dom.decide(val.items[2], pcs, extra=pre)
             okf = None if (need is None or flag is None) else (need == flag)
+            if need is None:
+                # padding is needed on part of this path only: decide the flag separately where a pad is non-zero and where both are zero
+                verdicts = []
+                for case, want in [([BoolC(p0, ">")], True), ([BoolC(p0, "<")], True), ([BoolC(p1, ">")], True), ([BoolC(p1, "<")], True),
+                                   ([BoolC(p0, "=="), BoolC(p1, "==")], False)]:
+                    pc2 = list(pcs) + case
+                    if dom.prove_ge(Poly.const(-1), pc2, pre):
+                        continue  # this case cannot occur on the path
+                    got = dom.decide(val.items[2], pc2, extra=pre)
+                    verdicts.append(None if got is None else got == want)
+                okf = False if any(v is False for v in verdicts) else (None if any(v is None for v in verdicts) else True)
             rep.ob("A", where, "the out-of-bound flag is true exactly when pad_before or pad_after is non-zero (callers pad only when it is set)" + tag, okf,
                    f"padding needed: {need}, flag: {flag} ({val.items[2]!r})"[:300], node=st, fn=f, clause="1 window", stmt=norm_src(st) + " flag @ " + pcdesc)
         okb = dom.prove_ge((dom.add(size, dom.neg(b))).poly(), pcs, extra=pre)
